@@ -128,34 +128,43 @@ type World struct {
 	stores  []*storeState
 	byFS    map[*storage.VerifStore]*storeState
 	byCache map[*storage.LRUCache]*storeState
-	files   map[string]*fileShadow
-	wals    map[any]*walHandle
+
+	// O-evict: cache events of store caches, pages set while clean although the
+	// data file does not hold their content, and the events at which such a
+	// page was still exposed when the cache next had to make room
+	lruEv         int64
+	unsaved       map[*storage.LRUCache]map[uint64]unsavedPage
+	PressureHints []int64
+	isMain        bool
+	inPressure    bool
+	files         map[string]*fileShadow
+	wals          map[any]*walHandle
 
 	ClockMs int64
 	cur     *storeState // flusher that holds the baton (nil = session/driver)
 
 	// statement context
-	inStmt      bool
-	stmtIdx     int
-	stmtKind    string
-	evIdx       int
-	walEvIdx    int
-	flushIdx    int
-	directives  []Directive
-	stmtChanged bool
-	stmtLogged  bool
-	stmtRecOps  []byte // op byte of every log record the statement wrote so far
+	inStmt       bool
+	stmtIdx      int
+	stmtKind     string
+	evIdx        int
+	walEvIdx     int
+	flushIdx     int
+	directives   []Directive
+	stmtChanged  bool
+	stmtLogged   bool
+	stmtRecOps   []byte // op byte of every log record the statement wrote so far
 	quietSuspect string // a flusher wrote to the data file after the statement's first change, lock released
-	inRecovery  bool
-	sessLocks   int // locks the session task holds (any store)
+	inRecovery   bool
+	sessLocks    int // locks the session task holds (any store)
 
 	// image capture
 	capReqs  []capReq
 	Captured []*Image
 
 	// monitors
-	mon      Monitors
-	pageView map[string]map[uint64]storage.VerifNodeView
+	mon       Monitors
+	pageView  map[string]map[uint64]storage.VerifNodeView
 	lruShadow map[*storage.LRUCache]*lruModel
 
 	inFlushLoop bool
@@ -168,11 +177,12 @@ type World struct {
 
 // Monitors selects the invariants evaluated inside hooks.
 type Monitors struct {
-	Lock  bool // O-lock
-	Quiet bool // O-quiet
-	Page  bool // O-page
-	LRU   bool // O-lru
+	Lock    bool // O-lock
+	Quiet   bool // O-quiet
+	Page    bool // O-page
+	LRU     bool // O-lru
 	Durable bool // O-durable: the log is fsynced when a statement's log append ends
+	Evict   bool // O-evict: a page leaving the cache equals its image in the data file
 }
 
 var curWorld *World
@@ -181,23 +191,92 @@ var tickerStub = make(chan time.Time) // never fires; for stores opened with no 
 
 func installHooks() {
 	storage.VerifSetHooks(&storage.VerifHooks{
-		NodeMark:      func(n *storage.VerifNode, d bool) { if w := curWorld; w != nil { w.hookNodeMark(n, d) } },
-		StoreOpened:   func(fs *storage.VerifStore, p string, a bool) { if w := curWorld; w != nil { w.hookStoreOpened(fs, p, a) } },
-		TickerChan:    func(fs *storage.VerifStore) <-chan time.Time { if w := curWorld; w != nil { return w.hookTickerChan(fs) }; return tickerStub },
-		Flusher:       func(fs *storage.VerifStore, ph int) { if w := curWorld; w != nil { w.hookFlusher(fs, ph) } },
-		Lock:          func(fs *storage.VerifStore, op int) { if w := curWorld; w != nil { w.hookLock(fs, op) } },
-		Close:         func(fs *storage.VerifStore) { if w := curWorld; w != nil { w.hookClose(fs) } },
-		Access:        func(fs *storage.VerifStore, k int, off uint64) { if w := curWorld; w != nil { w.hookAccess(fs, k, off) } },
-		PageWrite:     func(fs *storage.VerifStore, n *storage.VerifNode, b []byte) { if w := curWorld; w != nil { w.hookPageWrite(fs, n, b) } },
-		HeaderWrite:   func(fs *storage.VerifStore, b []byte) { if w := curWorld; w != nil { w.hookHeaderWrite(fs, b) } },
-		FlushLoopDone: func(fs *storage.VerifStore) { if w := curWorld; w != nil { w.hookFlushLoopDone(fs) } },
-		PageRead:      func(fs *storage.VerifStore, off uint64, b []byte, n *storage.VerifNode) { if w := curWorld; w != nil { w.hookPageRead(fs, off, b, n) } },
-		WalOpened:     func(f any, db string) { if w := curWorld; w != nil { w.hookWalOpened(f, db) } },
-		WalIO:         func(f any, k int, b []byte) { if w := curWorld; w != nil { w.hookWalIO(f, k, b) } },
-		WalTruncate:   func(f any, size int64) { if w := curWorld; w != nil { w.hookWalTruncate(f, size) } },
-		WalFileOp:     func(f any, op string, b []byte, size int64) { if w := curWorld; w != nil { w.hookWalFileOp(f, op, b, size) } },
-		Replay:        func(fs *storage.VerifStore, op uint8, lsn, pg uint64, cell uint32, redo bool) { if w := curWorld; w != nil { w.hookReplay(fs, op, lsn, pg, cell, redo) } },
-		LRU:           func(l *storage.LRUCache, k int, key any, n *storage.VerifNode) { if w := curWorld; w != nil { w.hookLRU(l, k, key, n) } },
+		NodeMark: func(n *storage.VerifNode, d bool) {
+			if w := curWorld; w != nil {
+				w.hookNodeMark(n, d)
+			}
+		},
+		StoreOpened: func(fs *storage.VerifStore, p string, a bool) {
+			if w := curWorld; w != nil {
+				w.hookStoreOpened(fs, p, a)
+			}
+		},
+		TickerChan: func(fs *storage.VerifStore) <-chan time.Time {
+			if w := curWorld; w != nil {
+				return w.hookTickerChan(fs)
+			}
+			return tickerStub
+		},
+		Flusher: func(fs *storage.VerifStore, ph int) {
+			if w := curWorld; w != nil {
+				w.hookFlusher(fs, ph)
+			}
+		},
+		Lock: func(fs *storage.VerifStore, op int) {
+			if w := curWorld; w != nil {
+				w.hookLock(fs, op)
+			}
+		},
+		Close: func(fs *storage.VerifStore) {
+			if w := curWorld; w != nil {
+				w.hookClose(fs)
+			}
+		},
+		Access: func(fs *storage.VerifStore, k int, off uint64) {
+			if w := curWorld; w != nil {
+				w.hookAccess(fs, k, off)
+			}
+		},
+		PageWrite: func(fs *storage.VerifStore, n *storage.VerifNode, b []byte) {
+			if w := curWorld; w != nil {
+				w.hookPageWrite(fs, n, b)
+			}
+		},
+		HeaderWrite: func(fs *storage.VerifStore, b []byte) {
+			if w := curWorld; w != nil {
+				w.hookHeaderWrite(fs, b)
+			}
+		},
+		FlushLoopDone: func(fs *storage.VerifStore) {
+			if w := curWorld; w != nil {
+				w.hookFlushLoopDone(fs)
+			}
+		},
+		PageRead: func(fs *storage.VerifStore, off uint64, b []byte, n *storage.VerifNode) {
+			if w := curWorld; w != nil {
+				w.hookPageRead(fs, off, b, n)
+			}
+		},
+		WalOpened: func(f any, db string) {
+			if w := curWorld; w != nil {
+				w.hookWalOpened(f, db)
+			}
+		},
+		WalIO: func(f any, k int, b []byte) {
+			if w := curWorld; w != nil {
+				w.hookWalIO(f, k, b)
+			}
+		},
+		WalTruncate: func(f any, size int64) {
+			if w := curWorld; w != nil {
+				w.hookWalTruncate(f, size)
+			}
+		},
+		WalFileOp: func(f any, op string, b []byte, size int64) {
+			if w := curWorld; w != nil {
+				w.hookWalFileOp(f, op, b, size)
+			}
+		},
+		Replay: func(fs *storage.VerifStore, op uint8, lsn, pg uint64, cell uint32, redo bool) {
+			if w := curWorld; w != nil {
+				w.hookReplay(fs, op, lsn, pg, cell, redo)
+			}
+		},
+		LRU: func(l *storage.LRUCache, k int, key any, n *storage.VerifNode) {
+			if w := curWorld; w != nil {
+				w.hookLRU(l, k, key, n)
+			}
+		},
 	})
 }
 
@@ -236,7 +315,7 @@ func NewWorld(dir string, knobs Knobs, prop string, files map[string][]byte) (*W
 		byFS: map[*storage.VerifStore]*storeState{}, byCache: map[*storage.LRUCache]*storeState{},
 		files: map[string]*fileShadow{}, wals: map[any]*walHandle{},
 		Stats: map[string]int64{}, Hash: 14695981039346656037,
-		pageView: map[string]map[uint64]storage.VerifNodeView{},
+		pageView:  map[string]map[uint64]storage.VerifNodeView{},
 		lruShadow: map[*storage.LRUCache]*lruModel{},
 	}
 	curWorld = w
@@ -600,6 +679,9 @@ func accName(k int) string {
 func (w *World) hookNodeMark(n *storage.VerifNode, dirty bool) {
 	atomic.AddInt64(&Progress, 1)
 	w.h(7, n.VerifOffset(), b2u(dirty))
+	if w.inPressure {
+		return
+	}
 	if dirty {
 		if w.cur == nil && w.inStmt {
 			w.changeAfterSuspect()
